@@ -66,6 +66,7 @@ type Interp struct {
 	mutexes map[*Value]int
 	spec    *specState
 	syncMaps map[*Value]*Map
+	fs       *memFS
 }
 
 type methodKey struct {
